@@ -93,6 +93,17 @@ CLAIMS = {
        "by design (DESIGN.md §3 C16).",
   note="Trusted: clang AST/CFG of five instantiation units; ownership by pointer-to-const convention (a const T* parameter never owns).",
   design_ref="DESIGN.md §3 C16, §2 O1-O7/W1"),
+ "C18": dict(
+  technique="static analysis: constant-subscript bounds on instantiations, word-write classification + post-dominance of the mask call, taint + dominating-guard, interval analysis of shift counts, recursion, constant tables",
+  text="Decides structural clauses of C18 (quick: bitset<70>; thorough: N in {1,63,64,65,70,128,200}): every constant "
+       "subscript of array's storage is in bounds; each bitset constructor initialises every word and masks a caller value; "
+       "every word write that can set bits at/above N (~x, x<<k, caller value) is post-dominated by mask_last_bit(); in "
+       "<<= and >>= every access whose position depends on the shift amount is dominated by a bound on it; all shift counts "
+       "lie in [0,width); no function calls itself on every path; the bit reference reads through operator bool and writes "
+       "its own index; MT19937/PCG constants present and the bounded draw is r % bound under r >= threshold; insertion_sort "
+       "permutes by comp-guarded swaps only. Does not decide agreement with std::bitset, the streams or sortedness.",
+  note="Trusted: clang AST/CFG of tu/bits.cpp per N; set(pos) exempt by documented precondition pos < N.",
+  design_ref="DESIGN.md §3 C18, §2 B1/B3/B4/R/T"),
 }
 
 NOT_YET = "check not built yet in this revision (see DESIGN.md §7 order of work); not claimed until it exists"
